@@ -39,14 +39,26 @@ pub fn config_route_allowance(data: &[u8]) -> u64 {
     let lines: Vec<&str> = text.lines().collect();
     let mut total = 0u64;
     let mut i = 0;
+    // a `#` outside double quotes starts a comment
+    fn code(l: &str) -> &str {
+        let mut in_q = false;
+        for (k, ch) in l.char_indices() {
+            match ch {
+                '"' => in_q = !in_q,
+                '#' if !in_q => return l[..k].trim(),
+                _ => {}
+            }
+        }
+        l.trim()
+    }
     while i < lines.len() {
-        let l = lines[i].trim();
-        if l.starts_with("route") && l.ends_with('{') {
+        let l = code(lines[i]);
+        if l.starts_with("route") {
             let patterns = l.matches(',').count() as u64 + 1;
             let mut bytes = 0u64;
             let mut elements = 0u64;
             let mut j = i + 1;
-            while j < lines.len() && lines[j].trim() != "}" {
+            while j < lines.len() && code(lines[j]) != "}" {
                 bytes += lines[j].len() as u64 + 1;
                 elements += lines[j].matches(',').count() as u64 + 1;
                 j += 1;
